@@ -338,7 +338,8 @@ fn main() {
             "unicode" => cmd_unicode(line),
             "compile" => cmd_compile(line),
             "session" => cmd_session(line),
-            "gc" => gcdrive::cmd_gc(line),
+            "gc" => catch_unwind(AssertUnwindSafe(|| gcdrive::cmd_gc(line)))
+                .unwrap_or_else(|e| format!("PANIC {}", panic_text(e))),
             _ => "unknown-command".to_string(),
         };
         writeln!(w, "{r}").unwrap();
